@@ -3,7 +3,7 @@ from sf_common import *
 import bp
 
 EXPLANATION = ('C17: real Sign/StepFunction/Relative_Difference/Floats_Equal: consistency, symmetry and reflexivity with every divisor non-zero (EA) and, bit-precisely over all doubles, Sign/StepFunction consistency (CBMC); '
-               'Round: odd, Round(0)=0, more than 7 digits rejected; Dawson_Integral: odd on both branches; VSH coefficient tables with symbolic integer (l,m): selection structure (non-zero only for l_hat = l+-1 and the stated m_hat) and the sum rules sum |coef|^2 = 1 (Y) and = l(l+1) (Psi); component outside {0,1,2} rejected.')
+               'Round: odd, Round(0)=0, more than 7 digits rejected, and - with E = floor(log10|x|), T = 10^E as an abstract decade (axioms T > 0, 10^-E = 1/T, T <= |x| < 10 T) - within half a unit of the last digit, digit structure T*c*floor(10^(d-1) x/T + 1/2), monotone within a decade, for d = 1..7; Dawson_Integral: odd on both branches; VSH coefficient tables with symbolic integer (l,m): selection structure (non-zero only for l_hat = l+-1 and the stated m_hat) and the sum rules sum |coef|^2 = 1 (Y) and = l(l+1) (Psi); component outside {0,1,2} rejected; summation of the tables in Vector_Spherical_Harmonics_Y/Psi with the scalar harmonics as symbols.')
 BOUNDS = {'quick': {'vsh_lmax': 4}, 'thorough': {'vsh_lmax': 12}}
 NOT_DECIDED = ['accuracy of Dawson_Integral / Erfi / Inv_Erf (transcendental references)', "Round: idempotence, monotonicity ACROSS decades, and the effect of rounding in log10/pow near powers of ten (decided: half-unit accuracy, digit structure and monotonicity within a decade, with E = floor(log10|x|), 10^E as an abstract decade)", 'conjugation, tangentiality and gradient identities of the vector harmonics as identities of functions (need the scalar harmonics from boost; decided here: coefficient tables, selection and sum rules, and that the summation loops add exactly the table entries with |m_hat| <= l_hat for l <= vsh_lmax) and the sign conventions of the tables']
 ASSUMPTIONS = ['EA: doubles exact reals, exp/log10/pow uninterpreted', 'VSH: l, m symbolic integers with l >= 1, |m| <= l; square roots via witnesses']
